@@ -48,6 +48,18 @@ static void hook_common(tpt_p tpt, int start) {
 	}
 	if (idx < 0 || idx > pw->n) { pw->hook_bad++; return; }
 	if (start) pw->start_cnt[idx]++; else pw->stop_cnt[idx]++;
+	if (!start && W.stop_hook_selfsend && idx < pw->n && W.nmsgs < MAX_MSG - 4) {
+		/* a thread that is stopping sends to ITSELF with the self-direct option (clean-up code does that): the
+		 * direct-call option does not depend on the destination still serving its queue */
+		msg_rec *m = world_new_msg(-1, MK_PLAIN, (int)(pw - W.pool), idx, TP_MSG_F_SELF_DIRECT);
+		int rc;
+		m->sent = 1; m->send_fiber = sim_self(); m->sender_tpt = tpt; m->dst_running = 1; m->in_send = 1; m->qfail_before = sim_qwrite_fails();
+		rc = tpt_msg_send(tpt, (W.stop_hook_selfsend & 2) ? tpt : NULL, TP_MSG_F_SELF_DIRECT, world_msg_cb, m);
+		m->in_send = 0; m->rc = rc;
+		sim_probe("c05.self_direct_in_stop_hook");
+		if (0 != rc || m->exec_count != 1 || !m->exec_sync)
+			sim_violation("msg-self-direct-refused", "thread %d, in its stop hook, sent to itself with TP_MSG_F_SELF_DIRECT: returned %d, callback ran %d time(s) (expected: 0, once, synchronously)", idx, rc, m->exec_count);
+	}
 	if (!start && W.slow_stop_hook_ns && idx < pw->n) sim_sleep_ns(W.slow_stop_hook_ns, "hook.stop.work");
 	if (pw->destroyed) sim_violation("callback-after-destroy", "%s hook for thread %d ran after tp_destroy returned", start ? "start" : "stop", idx);
 	sim_log("hook %s pool%d thr %d", start ? "start" : "stop", (int)(pw - W.pool), idx);
@@ -208,6 +220,91 @@ void world_msg_cb(tpt_p tpt, void *udata) {
 	}
 }
 
+/* ------------------------------------------------------------------ queue byte streams (stray bytes in a queue)
+ * The queue is a pipe of 32-byte packets. Stray bytes (a torn packet, somebody's write to the wrong descriptor)
+ * make the reader resynchronise on the packet magic. What the code under test promises then is narrow, and the
+ * ledger decides it exactly: reads return whole writes unless the read buffer is full, so only a packet that
+ * STRADDLES the end of a (full) read can be torn and dropped by the resynchronisation; every other accepted
+ * packet must still run exactly once, nothing may run twice, nothing that was never sent may run. */
+static queue_w *queue_of_fd(int fd, int *pool, int *thr) {
+	for (int k = 0; k < MAX_POOLS; k++)
+		for (int t = 0; t <= W.pool[k].n && t <= MAX_THR; t++)
+			if (W.q[k][t].rfd > 0 && (W.q[k][t].rfd == fd || W.q[k][t].wfd == fd)) { *pool = k; *thr = t; return &W.q[k][t]; }
+	return NULL;
+}
+static void pipe_io_hook(int fd, int is_write, const void *buf, ssize_t n) {
+	int k, t;
+	queue_w *q = queue_of_fd(fd, &k, &t);
+	if (!q) return;
+	if (is_write) {
+		if (n == 32) {
+			void *ud; memcpy(&ud, (const char *)buf + 16, sizeof(ud));
+			if ((uintptr_t)ud >= (uintptr_t)&g_msgs[0] && (uintptr_t)ud < (uintptr_t)&g_msgs[W.nmsgs]) {
+				msg_rec *m = ud;
+				m->q_known = 1; m->q_idx = k * (MAX_THR + 1) + t; m->q_off = q->wr_off;
+			}
+		}
+		q->wr_off += (uint64_t)n;
+	} else {
+		q->rd_off += (uint64_t)n;
+		if (q->damaged) {
+			if (W.nqb < MAX_QBOUNDS) { W.qb[W.nqb].pool = (short)k; W.qb[W.nqb].thr = (short)t; W.qb[W.nqb].off = q->rd_off; W.nqb++; }
+			else q->tolerate_all = 1;
+		}
+	}
+}
+void world_track_queues(int k) {
+	pool_w *pw = &W.pool[k];
+	for (int t = 0; t <= pw->n; t++) {
+		tpt_p tpt = (t < pw->n) ? pw->thr[t] : pw->pvt;
+		tp_udata_p qu = tpt ? tpt_get_msg_queue(tpt) : NULL;
+		if (!qu) continue;
+		W.q[k][t].rfd = (int)qu->ident;
+		W.q[k][t].wfd = sim_fd_peer((int)qu->ident);
+	}
+	sim_on_pipe_io_hook = pipe_io_hook;
+}
+int world_queue_junk(int pool, int thr, int kbytes, int how) {
+	pool_w *pw = &W.pool[pool];
+	queue_w *q;
+	unsigned char junk[64];
+	ssize_t wr;
+	if (thr < 0 || thr > pw->n) thr = pw->n;
+	q = &W.q[pool][thr];
+	if (q->wfd <= 0) return 0;
+	if (kbytes < 1) kbytes = 1; if (kbytes > 31) kbytes = 31;
+	/* The head of a packet is only used with 8..24 bytes. Fewer leave a PARTIAL magic: it can combine with the first
+	 * bytes of the next packet into a false match, after which the reader's 8-byte skip jumps over the true magic -
+	 * and more than 24 include check-sum bytes, so that 31 bytes plus the zero low byte of the next magic ARE a valid
+	 * packet. Neither is something the property promises anything about (first version of this fault did both). */
+	if (how == 0 && kbytes < 8) kbytes = 8; if (how == 0 && kbytes > 24) kbytes = 24;
+	if (how == 0) {
+		/* the head of a real packet (what a torn write would leave): magic, callback, ... */
+		size_t pkt[4] = { 0xffddaa00u, (size_t)(uintptr_t)world_msg_cb, 0, 0 };
+		pkt[3] = pkt[1] ^ pkt[2];
+		memcpy(junk, pkt, 32);
+	} else memset(junk, 0xa5, sizeof(junk));
+	sim_yield("queue.junk");
+	q->damaged = 1;   /* before the bytes are in: a reader may run at once */
+	wr = write(q->wfd, junk, (size_t)kbytes);
+	if (wr > 0) { q->wr_off += (uint64_t)wr; sim_probe("c05.queue_stray_bytes"); sim_hash_u64(0x10c0000ull + (uint64_t)wr); }
+	sim_log("stray bytes: %zd byte(s) (%s) into the queue of pool %d thread %d", wr, how ? "0xa5 filler" : "head of a packet", pool, thr);
+	sim_yield("queue.junk.done");
+	return wr > 0 ? (int)wr : 0;
+}
+static int loss_excused(const msg_rec *m) {
+	int k, t;
+	queue_w *q;
+	if (!m->q_known) return 0;
+	k = m->q_idx / (MAX_THR + 1); t = m->q_idx % (MAX_THR + 1);
+	q = &W.q[k][t];
+	if (!q->damaged) return 0;
+	if (q->tolerate_all) return 1;
+	for (int i = 0; i < W.nqb; i++)
+		if (W.qb[i].pool == k && W.qb[i].thr == t && W.qb[i].off > m->q_off && W.qb[i].off < m->q_off + 32) return 1;
+	return 0;
+}
+
 int world_send(msg_rec *m, tpt_p src_explicit) {
 	pool_w *pw = &W.pool[m->pool];
 	tpt_p dst = (m->dst < 0) ? pw->pvt : pw->thr[m->dst];
@@ -258,6 +355,7 @@ void world_check_messages(int final) {
 			for (int t = 0; t < pw->n; t++) if (!pw->never_started[t]) workers++;
 			if (0 == workers) { sim_probe("msg.pvt_no_worker"); continue; }
 		}
+		if (m->rc == 0 && m->exec_count == 0 && final && loss_excused(m)) { sim_probe("msg.lost_straddling_a_read_after_stray_bytes"); continue; }
 		if (m->rc == 0 && m->exec_count != 1 && final) {
 			MSGV("msg-lost", "message %d (op %d, dst %d of pool %d, flags %x) was accepted (rc 0) but executed %d times by quiescence", m->id, m->op, m->dst, m->pool, m->flags, m->exec_count);
 			return;
